@@ -301,6 +301,15 @@ type Resolver struct {
 	ImplementationRender func(prevImplementation string, r *codegen.Field) string
 }
 
+// ReceiverName keeps the receiver name of an existing resolver method, so that a copied
+// body that refers to it still compiles.
+func (r *Resolver) ReceiverName() string {
+	if r.PrevDecl != nil && r.PrevDecl.Recv != nil && len(r.PrevDecl.Recv.List) > 0 && len(r.PrevDecl.Recv.List[0].Names) > 0 {
+		return r.PrevDecl.Recv.List[0].Names[0].Name
+	}
+	return "r"
+}
+
 func (r *Resolver) Implementation() string {
 	if r.ImplementationRender != nil {
 		// use custom implementation
